@@ -158,7 +158,6 @@ async def receive_udp(
                 one_rr_per_rrset=one_rr_per_rrset,
                 ignore_trailing=ignore_trailing,
                 raise_on_truncation=raise_on_truncation,
-                continue_on_error=ignore_errors,
             )
         except dns.message.Truncated as e:
             # See the comment in query.py for details.
